@@ -39,7 +39,7 @@ def budget(tier):
 def gen_case(ch: Chooser, excl=()):
     excl = set(excl)
     source = ch.weighted([(3, "c01"), (2, "c08")])
-    limit = True if "limit_off" in excl else not ch.bool(1, 4)
+    limit = True if "limit_off" in excl else not ch.bool(1, 3)
     if source == "c01":
         proj, g = gen.gen_project(ch, {"docs": True, "late_access": True, "excl": tuple(excl)})
     else:
@@ -56,7 +56,7 @@ def gen_case(ch: Chooser, excl=()):
         # with the limit off nothing is cut at column 72: make some lines long on purpose is left to the
         # renderer (inline docs may run past column 72)
         pass
-    nontrivial = ("fixed-continuation" in u2 and ("fixed-seqfield" in u2 or not limit))
+    nontrivial = ("fixed-continuation" in u2 and ("fixed-seqfield" in u2 or "fixed-long-line" in u2))
     classes = sorted(["src:" + source, "limit:" + ("on" if limit else "off")] + ["fx:" + k for k in u2 if k.startswith("fixed")])
     return {"free": free, "fixed": fixed, "limit": limit, "classes": classes,
             "nontrivial": bool(nontrivial) and "fixed-unbreakable" not in u2, "skip": "fixed-unbreakable" in u2}
@@ -121,7 +121,8 @@ def check(case) -> Result:
             res.fail("fixed-differs:" + sig, "free form vs fixed form: " + msg)
     if res.failures:
         ok1, err1 = fordapi.gfortran_check(case["free"])
-        ok2, err2 = fordapi.gfortran_check(case["fixed"], fixed=True)
+        ok2, err2 = fordapi.gfortran_check(case["fixed"], fixed=True,
+                                           extra_flags=() if case["limit"] else ("-ffixed-line-length-none",))
         if not (ok1 and ok2):
             res.failures = []
             res.fail("HARNESS:gfortran-rejects-generated-program", (err1 + err2)[-700:])
